@@ -30,7 +30,7 @@ Known == {"nl.bsn", "nl.onderwijsnummer", "pl.nip", "pl.regon", "pt.nif", "dk.cv
           "se.postnummer", "se.vat", "si.maticna", "sm.coe", "sv.nit", "th.moa",
           "bg.egn", "cu.ni", "cz.rc", "sk.rc", "lt.asmens", "ro.cnp", "kr.rrn", "gr.amka", "is_.kennitala",
           "es.cups", "es.nif", "es.referenciacatastral", "fr.nir", "in_.gstin", "si.emso", "tn.mf", "tw.ubn", "ua.rntrc", "us.ptin",
-          "bg.vat", "cz.dic", "sk.dph", "ro.cf", "th.tin", "it.codicefiscale", "mu.nid", "eu.at_02"}
+          "bg.vat", "cz.dic", "sk.dph", "ro.cf", "th.tin", "it.codicefiscale", "mu.nid", "eu.at_02", "mx.rfc", "mx.curp"}
 (* formats with further rules (dates, ranges) that are not transcribed: the checksum is only a NECESSARY condition *)
 Necessary == {"no.fodselsnummer", "fi.hetu", "ch.ssn", "lv.pvn", "pl.pesel", "ee.ik", "at.tin", "dk.cpr", "za.idnr"}
 
@@ -129,6 +129,12 @@ IsOmo(ch) == (ch \in 48..57) \/ In(ch, <<76, 77, 78, 80, 81, 82, 83, 84, 85, 86>
 CfOdd == <<1, 0, 5, 7, 9, 13, 15, 17, 19, 21, 2, 4, 18, 20, 11, 3, 6, 8, 12, 14, 16, 10, 22, 25, 24, 23>>
 CfMonths == <<65, 66, 67, 68, 69, 72, 76, 77, 80, 82, 83, 84>>
 CfVal(ch, odd) == LET k == IF ch <= 57 THEN ch - 48 ELSE ch - 65 IN IF odd THEN CfOdd[k + 1] ELSE k
+(* tables copied from the modules (data, like the registries): forbidden name prefixes and the Mexican state codes *)
+MxRfcBlacklist == {<<66, 85, 69, 73>>, <<66, 85, 69, 89>>, <<67, 65, 67, 65>>, <<67, 65, 67, 79>>, <<67, 65, 71, 65>>, <<67, 65, 71, 79>>, <<67, 65, 75, 65>>, <<67, 65, 75, 79>>, <<67, 79, 71, 69>>, <<67, 79, 74, 65>>, <<67, 79, 74, 69>>, <<67, 79, 74, 73>>, <<67, 79, 74, 79>>, <<67, 85, 76, 79>>, <<70, 69, 84, 79>>, <<71, 85, 69, 89>>, <<74, 79, 84, 79>>, <<75, 65, 67, 65>>, <<75, 65, 67, 79>>, <<75, 65, 71, 65>>, <<75, 65, 71, 79>>, <<75, 65, 75, 65>>, <<75, 79, 71, 69>>, <<75, 79, 74, 79>>, <<75, 85, 76, 79>>, <<77, 65, 77, 69>>, <<77, 65, 77, 79>>, <<77, 69, 65, 82>>, <<77, 69, 65, 83>>, <<77, 69, 79, 78>>, <<77, 73, 79, 78>>, <<77, 79, 67, 79>>, <<77, 85, 76, 65>>, <<80, 69, 68, 65>>, <<80, 69, 68, 79>>, <<80, 69, 78, 69>>, <<80, 85, 84, 65>>, <<80, 85, 84, 79>>, <<81, 85, 76, 79>>, <<82, 65, 84, 65>>, <<82, 85, 73, 78>>}
+MxCurpBlacklist == {<<66, 65, 67, 65>>, <<66, 65, 75, 65>>, <<66, 85, 69, 73>>, <<66, 85, 69, 89>>, <<67, 65, 67, 65>>, <<67, 65, 67, 79>>, <<67, 65, 71, 65>>, <<67, 65, 71, 79>>, <<67, 65, 75, 65>>, <<67, 65, 75, 79>>, <<67, 79, 71, 69>>, <<67, 79, 71, 73>>, <<67, 79, 74, 65>>, <<67, 79, 74, 69>>, <<67, 79, 74, 73>>, <<67, 79, 74, 79>>, <<67, 79, 76, 65>>, <<67, 85, 76, 79>>, <<70, 65, 76, 79>>, <<70, 69, 84, 79>>, <<71, 69, 84, 65>>, <<71, 85, 69, 73>>, <<71, 85, 69, 89>>, <<74, 69, 84, 65>>, <<74, 79, 84, 79>>, <<75, 65, 67, 65>>, <<75, 65, 67, 79>>, <<75, 65, 71, 65>>, <<75, 65, 71, 79>>, <<75, 65, 75, 65>>, <<75, 65, 75, 79>>, <<75, 79, 71, 69>>, <<75, 79, 71, 73>>, <<75, 79, 74, 65>>, <<75, 79, 74, 69>>, <<75, 79, 74, 73>>, <<75, 79, 74, 79>>, <<75, 79, 76, 65>>, <<75, 85, 76, 79>>, <<76, 73, 76, 79>>, <<76, 79, 67, 65>>, <<76, 79, 67, 79>>, <<76, 79, 75, 65>>, <<76, 79, 75, 79>>, <<77, 65, 77, 69>>, <<77, 65, 77, 79>>, <<77, 69, 65, 82>>, <<77, 69, 65, 83>>, <<77, 69, 79, 78>>, <<77, 73, 65, 82>>, <<77, 73, 79, 78>>, <<77, 79, 67, 79>>, <<77, 79, 75, 79>>, <<77, 85, 76, 65>>, <<77, 85, 76, 79>>, <<78, 65, 67, 65>>, <<78, 65, 67, 79>>, <<80, 69, 68, 65>>, <<80, 69, 68, 79>>, <<80, 69, 78, 69>>, <<80, 73, 80, 73>>, <<80, 73, 84, 79>>, <<80, 79, 80, 79>>, <<80, 85, 84, 65>>, <<80, 85, 84, 79>>, <<81, 85, 76, 79>>, <<82, 65, 84, 65>>, <<82, 79, 66, 65>>, <<82, 79, 66, 69>>, <<82, 79, 66, 79>>, <<82, 85, 73, 78>>, <<83, 69, 78, 79>>, <<84, 69, 84, 65>>, <<86, 65, 67, 65>>, <<86, 65, 71, 65>>, <<86, 65, 71, 79>>, <<86, 65, 75, 65>>, <<86, 85, 69, 73>>, <<86, 85, 69, 89>>, <<87, 85, 69, 73>>, <<87, 85, 69, 89>>}
+MxStates == {<<65, 83>>, <<66, 67>>, <<66, 83>>, <<67, 67>>, <<67, 72>>, <<67, 76>>, <<67, 77>>, <<67, 83>>, <<68, 70>>, <<68, 71>>, <<71, 82>>, <<71, 84>>, <<72, 71>>, <<74, 67>>, <<77, 67>>, <<77, 78>>, <<77, 83>>, <<78, 69>>, <<78, 76>>, <<78, 84>>, <<79, 67>>, <<80, 76>>, <<81, 82>>, <<81, 84>>, <<83, 76>>, <<83, 80>>, <<83, 82>>, <<84, 67>>, <<84, 76>>, <<84, 83>>, <<86, 90>>, <<89, 78>>, <<90, 83>>}
+MxCurpVal(ch) == IF ch <= 57 THEN ch - 48 ELSE IF ch = 38 THEN 24 ELSE IF ch <= 78 THEN ch - 55 ELSE ch - 54
+MxLetter(ch) == (ch \in 65..90) \/ ch = 38
 EstonianCheck(c, n) ==        \* check digit over the first n digits: weights 1,2,..,9,1,.. and, when that gives 10, 3,4,..,9,1,2,..
   LET s1 == Sum(LAMBDA i : (((i - 1) % 9) + 1) * D(c[i]), n) % 11
       s2 == Sum(LAMBDA i : (((i + 1) % 9) + 1) * D(c[i]), n) % 11
@@ -497,6 +503,20 @@ AcceptN(m, c) ==
     [] m = "eu.at_02" -> /\ Len(c) >= 1 /\ (\A i \in 1..Len(c) : (c[i] \in 48..57) \/ (c[i] \in 65..90))
                          /\ LET t == (IF Len(c) >= 8 THEN SubSeq(c, 8, Len(c)) ELSE <<>>) \o SubSeq(c, 1, IF Len(c) < 4 THEN Len(c) ELSE 4)
                             IN Mod97Alnum(t) = 1
+    [] m = "mx.rfc" -> CASE Len(c) \in {10, 13} -> /\ (\A i \in 1..4 : MxLetter(c[i])) /\ IsDigits(SubSeq(c, 5, 10))
+                                                  /\ (\A i \in 11..Len(c) : (c[i] \in 48..57) \/ (c[i] \in 65..90))
+                                                  /\ SubSeq(c, 1, 4) \notin MxRfcBlacklist
+                                                  /\ NRealDate(2000 + NumOf(c, 5, 6), NumOf(c, 7, 8), NumOf(c, 9, 10))
+                         [] Len(c) = 12 -> /\ (\A i \in 1..3 : MxLetter(c[i])) /\ IsDigits(SubSeq(c, 4, 9))
+                                           /\ (\A i \in 10..12 : (c[i] \in 48..57) \/ (c[i] \in 65..90))
+                                           /\ NRealDate(2000 + NumOf(c, 4, 5), NumOf(c, 6, 7), NumOf(c, 8, 9))
+                         [] OTHER -> FALSE
+    [] m = "mx.curp" -> /\ Len(c) = 18 /\ (\A i \in (1..4) \cup (11..16) : c[i] \in 65..90) /\ IsDigits(SubSeq(c, 5, 10))
+                        /\ ((c[17] \in 48..57) \/ (c[17] \in 65..90)) /\ c[18] \in 48..57
+                        /\ SubSeq(c, 1, 4) \notin MxCurpBlacklist
+                        /\ NRealDate((IF c[17] <= 57 THEN 1900 ELSE 2000) + NumOf(c, 5, 6), NumOf(c, 7, 8), NumOf(c, 9, 10))
+                        /\ c[11] \in {72, 77} /\ SubSeq(c, 12, 13) \in MxStates
+                        /\ (10 - (Sum(LAMBDA i : MxCurpVal(c[i]) * (19 - i), 17) % 10)) % 10 = D(c[18])
 
 (* checksum parts of formats with further rules *)
 NecessaryN(m, c) ==
